@@ -960,6 +960,9 @@ func (fv *FuncVerifier) havocDiff(st *State, before *State, after []*State) (var
 		}
 		v := before.ghost[g]
 		st.ghost[g] = Val{T: fv.fresh(g, v.sortIn(fv.eng.sc)), Ty: v.Ty, Sort: v.Sort}
+		if fv.eng.contracts.GhostVars[g] == "nat" {
+			fv.assumeGlobal("(>= " + st.ghost[g].T + " 0)")
+		}
 	}
 	if allocCh {
 		na := fv.fresh("alloc", "Int")
